@@ -174,6 +174,7 @@ def Operand.isPlain : Operand → Bool
 def isBoolNode (nodes : Array CNode) (m : Nat) : Bool :=
   match nodes[m]? with
   | some (.cmp ..) | some (.land ..) | some (.lor ..) | some (.lnot ..) => true
+  | some (.gate _ _ _ (.int k) _) => k == 0 || k == 1      -- `(cond) : 0` and `(cond) : 1`
   | _ => false
 
 def isBoolArg (nodes : Array CNode) : Arg → Bool
